@@ -568,4 +568,289 @@ theorem chanPush_misc (cfg : Cfg) (w : World) (f c x mode : Nat) (w' : World) (b
       rw [← h.1]
       exact ⟨(scheduleGeneral_props _ _ _ _).1, (scheduleGeneral_props _ _ _ _).2.2.1⟩
 
+theorem chanPop_cases (cfg : Cfg) (hk : cfg.popSkipsStaleWriter = true) (w : World) (f c mode : Nat) (hmode : mode ≠ 2) :
+    ((w.chans c).closed = true ∧ chanPop cfg w f c mode = .got w none) ∨
+    ((w.chans c).closed = false ∧ (w.chans c).items = [] ∧
+      chanPop cfg w f c mode = .blocked (setChan w c { (w.chans c) with readPending := (w.chans c).readPending ++
+        [Pending.mk f (w.fibers f).sched (if mode = 0 then .read else .choiceRead)] })) ∨
+    (∃ x rest o wp', (w.chans c).closed = false ∧ (w.chans c).items = x :: rest ∧
+      popWriter true w.fibers (w.chans c).writePending = (o, wp') ∧
+      chanPop cfg w f c mode = .got
+        (match o with
+         | none => setChan (addHanded w c x) c { (w.chans c) with items := rest, writePending := wp' }
+         | some p => schedule (setChan (addHanded w c x) c { (w.chans c) with items := rest, writePending := wp' }) p.fiber
+                       (if p.mode = .choiceWrite then .give c else .chan c)) (some x)) := by
+  cases hcl : (w.chans c).closed with
+  | true => left; refine ⟨rfl, ?_⟩; unfold chanPop; simp [hcl]
+  | false =>
+    right
+    cases hit : (w.chans c).items with
+    | nil =>
+      left; refine ⟨rfl, rfl, ?_⟩
+      unfold chanPop; simp [hcl, hit, hmode]
+    | cons x rest =>
+      right
+      rcases hq : popWriter true w.fibers (w.chans c).writePending with ⟨o, wp'⟩
+      refine ⟨x, rest, o, wp', rfl, rfl, rfl, ?_⟩
+      unfold chanPop
+      have hq' : popWriter cfg.popSkipsStaleWriter (addHanded w c x).fibers (w.chans c).writePending = (o, wp') := by
+        rw [hk]; exact hq
+      simp only [hcl, Bool.false_eq_true, ↓reduceIte, hit, hq']
+      cases o <;> rfl
+
+theorem M_ent_congr {fb : Fibers} {rq : List Task} {tm : List Timer} {en en' : Ent} {cur : Option Nat}
+    (hm : M fb rq tm en cur) (h : ∀ c p, p ∈ en' c ↔ p ∈ en c) : M fb rq tm en' cur :=
+  M_shrink hm (fun c p hp => (h c p).mp hp) (fun c p hp hnp => absurd ((h c p).mpr hp) hnp)
+
+theorem not_live_of_hasLiveReader_false {fibers : Nat → Fiber} {rp : List Pending}
+    (h : hasLiveReader fibers rp = false) (p : Pending) (hp : p ∈ rp) : p.sched ≠ (fibers p.fiber).sched := by
+  unfold hasLiveReader at h
+  rw [List.any_eq_false] at h
+  have := h p hp
+  intro e; exact this ((live_iff fibers p).mpr e)
+
+/-- push_with_lock by the running fiber `f` (not registered on `c`, no live task, no timer) -/
+theorem chanPush_W {cfg : Cfg} (hs : cfg.pushBlocksStrict = true) {w : World} {f c x mode : Nat} {w' : World} {b : Bool}
+    (h : chanPush cfg w f c x mode = .ok w' b) (hm : WM w) (hcur : w.current = some f)
+    (hlt : LT w.fibers w.runq f = 0) (hnt : ¬ liveTimer w.fibers w.timers f)
+    (hnc : ¬ liveIn w.fibers w.ent f c) (hmode : mode ≠ 2) :
+    WM w' ∧ w'.current = some f ∧ LT w'.fibers w'.runq f = 0 ∧ ¬ liveTimer w'.fibers w'.timers f ∧
+    (∀ c', c' ≠ c → (liveIn w'.fibers w'.ent f c' ↔ liveIn w.fibers w.ent f c')) ∧
+    (liveIn w'.fibers w'.ent f c ↔ b = true) ∧ w'.fibers f = w.fibers f := by
+  obtain ⟨htm, hcur'⟩ := chanPush_misc cfg w f c x mode w' b h
+  obtain ⟨_, _, hoth, hcase⟩ := chanPush_cases cfg hs w f c x mode w' b h
+  have hento : ∀ c', c' ≠ c → w'.ent c' = w.ent c' := by
+    intro c' hc'; unfold World.ent; rw [hoth c' hc']
+  rcases hcase with ⟨hno, hfib, hrq, _, _, hrp, _, _, _, hwp⟩ | ⟨r, rest, hq, hb, _, hw'⟩
+  · -- no live reader
+    have hentc : ∀ q, q ∈ w'.ent c ↔ q ∈ (w.chans c).writePending ∨
+        (b = true ∧ q = Pending.mk f (w.fibers f).sched (if mode = 0 then .write else .choiceWrite)) := by
+      intro q
+      rw [mem_ent, hrp, hwp]
+      by_cases hb : b = true
+      · simp [hb, hmode]
+      · simp [hb]
+    let en1 : Ent := fun c' => if c' = c then (w.chans c).writePending else w.ent c'
+    have hm1 : M w.fibers w.runq w.timers en1 w.current := by
+      apply M_shrink hm
+      · intro c' p hp
+        by_cases e : c' = c
+        · subst e; simp [en1] at hp; exact (mem_ent w c' p).mpr (Or.inr hp)
+        · simp [en1, e] at hp; exact hp
+      · intro c' p hp hnp
+        by_cases e : c' = c
+        · subst e
+          simp [en1] at hnp
+          rcases (mem_ent w c' p).mp hp with hp | hp
+          · exact not_live_of_hasLiveReader_false hno p hp
+          · exact absurd hp hnp
+        · simp [en1, e] at hnp; exact absurd hp hnp
+    have hM : M w.fibers w.runq w.timers w'.ent w.current := by
+      by_cases hb : b = true
+      · apply M_register f c (Pending.mk f (w.fibers f).sched (if mode = 0 then .write else .choiceWrite)) hm1 hcur rfl rfl hlt
+        intro c' q
+        by_cases e : c' = c
+        · subst e; rw [hentc]; simp [en1, hb]
+        · rw [hento c' e]; simp [en1, e]
+      · apply M_ent_congr hm1
+        intro c' q
+        by_cases e : c' = c
+        · subst e; rw [hentc]; simp [en1, hb]
+        · rw [hento c' e]; simp [en1, e]
+    refine ⟨?_, by rw [hcur', hcur], by rw [hfib, hrq]; exact hlt, by rw [hfib, htm]; exact hnt, ?_, ?_, by rw [hfib]⟩
+    · unfold WM; rw [hfib, hrq, htm, hcur']; exact hM
+    · intro c' hc'; rw [hfib]; unfold liveIn; rw [hento c' hc']
+    · rw [hfib]
+      constructor
+      · rintro ⟨q, hq, h1, h2⟩
+        rcases (hentc q).mp hq with hq | ⟨hb, _⟩
+        · exact absurd ⟨q, (mem_ent w c q).mpr (Or.inr hq), h1, h2⟩ hnc
+        · exact hb
+      · intro hb
+        exact ⟨_, (hentc _).mpr (Or.inr ⟨hb, rfl⟩), rfl, rfl⟩
+  · -- hand-over to the live reader r
+    have hspec := popLiveReader_spec w.fibers _ _ _ hq
+    obtain ⟨hrin, hrlive, _⟩ := hspec.2.2 r rfl
+    have hrs : r.sched = (w.fibers r.fiber).sched := (live_iff w.fibers r).mp hrlive
+    have hrent : r ∈ w.ent c := (mem_ent w c r).mpr (Or.inl hrin)
+    have hgf : r.fiber ≠ f := fun e => hnc ⟨r, hrent, e, by rw [← e]; exact hrs⟩
+    have hcan : (w.fibers r.fiber).canceled = false :=
+      not_canceled_of_liveEntry hm r.fiber (Or.inl ⟨c, r, hrent, rfl, hrs⟩)
+    let w1 := addHanded (setChan (addPushed w c x) c { (w.chans c) with readPending := rest }) c x
+    have hw1 : w' = scheduleGeneral w1 r.fiber (if r.mode = .choiceRead then .take c x else .num x) .ok false := hw'
+    have hent' : w'.ent = w1.ent := by rw [hw1]; unfold World.ent; rw [scheduleGeneral_chans]
+    have hw1c : ∀ p, p ∈ w1.ent c ↔ p ∈ rest ∨ p ∈ (w.chans c).writePending := by
+      intro p; rw [mem_ent]; simp [w1, addHanded, setChan]
+    have hw1o : ∀ c', c' ≠ c → w1.ent c' = w.ent c' := by
+      intro c' hc'; unfold World.ent; simp [w1, addHanded, setChan, addPushed, hc']
+    have hM : M (scheduleGeneral w1 r.fiber (if r.mode = .choiceRead then .take c x else .num x) .ok false).fibers
+        (scheduleGeneral w1 r.fiber (if r.mode = .choiceRead then .take c x else .num x) .ok false).runq w.timers w1.ent
+        (scheduleGeneral w1 r.fiber (if r.mode = .choiceRead then .take c x else .num x) .ok false).current := by
+      apply M_shrink_schedule (w := w1) (en := w.ent) r.fiber _ .ok hm
+      · intro c' p hp
+        by_cases e : c' = c
+        · subst e
+          rcases (hw1c p).mp hp with hp | hp
+          · exact (mem_ent w c' p).mpr (Or.inl (hspec.1 p hp))
+          · exact (mem_ent w c' p).mpr (Or.inr hp)
+        · rw [hw1o c' e] at hp; exact hp
+      · intro c' p hp hnp
+        by_cases e : c' = c
+        · subst e
+          rcases (mem_ent w c' p).mp hp with hp | hp
+          · have hnr : p ∉ rest := fun hin => hnp ((hw1c p).mpr (Or.inl hin))
+            rcases popLiveReader_removed w.fibers _ _ _ hq p hp hnr with hl | hl
+            · left; intro e; rw [(live_iff w.fibers p).mpr e] at hl; cases hl
+            · right; injection hl with hl; rw [hl]
+          · exact absurd ((hw1c p).mpr (Or.inr hp)) hnp
+        · rw [hw1o c' e] at hnp; exact absurd hp hnp
+      · exact hcan
+    obtain ⟨hLTf, hff⟩ := schedule_other w1 r.fiber (if r.mode = .choiceRead then .take c x else .num x) .ok f hgf
+    refine ⟨?_, by rw [hcur', hcur], ?_, ?_, ?_, ?_, ?_⟩
+    · unfold WM; rw [htm, hent', hw1]; exact hM
+    · rw [hw1, hLTf]; exact hlt
+    · rw [htm, hw1]; rw [liveTimer_congr w.timers f (by rw [hff])]; exact hnt
+    · intro c' hc'
+      rw [hw1, liveIn_congr _ f c' (by rw [hff]), ← hw1, hent']
+      unfold liveIn; rw [hw1o c' hc']; exact Iff.rfl
+    · rw [hb]
+      constructor
+      · rw [hw1, liveIn_congr _ f c (by rw [hff]), ← hw1, hent']
+        rintro ⟨q, hq', h1, h2⟩
+        exfalso; apply hnc
+        rcases (hw1c q).mp hq' with hq' | hq'
+        · exact ⟨q, (mem_ent w c q).mpr (Or.inl (hspec.1 q hq')), h1, h2⟩
+        · exact ⟨q, (mem_ent w c q).mpr (Or.inr hq'), h1, h2⟩
+      · intro e; cases e
+    · rw [hw1]; exact hff
+
+/-- pop_with_lock by the running fiber `f` (not registered on `c`, no live task, no timer) -/
+theorem chanPop_W {cfg : Cfg} (hk : cfg.popSkipsStaleWriter = true) {w : World} {f c mode : Nat}
+    (hm : WM w) (hcur : w.current = some f) (hlt : LT w.fibers w.runq f = 0)
+    (hnt : ¬ liveTimer w.fibers w.timers f) (hnc : ¬ liveIn w.fibers w.ent f c) (hmode : mode ≠ 2) :
+    (∀ w' r, chanPop cfg w f c mode = .got w' r →
+      WM w' ∧ w'.current = some f ∧ LT w'.fibers w'.runq f = 0 ∧ ¬ liveTimer w'.fibers w'.timers f ∧
+      (∀ c', liveIn w'.fibers w'.ent f c' ↔ liveIn w.fibers w.ent f c') ∧ w'.fibers f = w.fibers f) ∧
+    (∀ w', chanPop cfg w f c mode = .blocked w' →
+      WM w' ∧ w'.current = some f ∧ LT w'.fibers w'.runq f = 0 ∧ ¬ liveTimer w'.fibers w'.timers f ∧
+      (∀ c', c' ≠ c → (liveIn w'.fibers w'.ent f c' ↔ liveIn w.fibers w.ent f c')) ∧
+      liveIn w'.fibers w'.ent f c ∧ w'.fibers f = w.fibers f ∧ w'.fibers = w.fibers ∧
+      (∀ c', c' ≠ c → w'.chans c' = w.chans c')) := by
+  rcases chanPop_cases cfg hk w f c mode hmode with ⟨_, he⟩ | ⟨_, _, he⟩ | ⟨x, rest, o, wp', _, _, hq, he⟩
+  · rw [he]
+    refine ⟨?_, fun w' h => by cases h⟩
+    intro w' r h
+    injection h with h1 _
+    subst h1
+    exact ⟨hm, hcur, hlt, hnt, fun _ => Iff.rfl, rfl⟩
+  · rw [he]
+    refine ⟨fun w' r h => (by cases h), ?_⟩
+    intro w' h
+    injection h with h1
+    subst h1
+    have hentc : ∀ q, q ∈ (setChan w c { (w.chans c) with readPending := (w.chans c).readPending ++
+        [Pending.mk f (w.fibers f).sched (if mode = 0 then .read else .choiceRead)] }).ent c ↔
+        q ∈ w.ent c ∨ q = Pending.mk f (w.fibers f).sched (if mode = 0 then .read else .choiceRead) := by
+      intro q; rw [mem_ent, mem_ent]
+      simp only [setChan, ↓reduceIte, List.mem_append, List.mem_singleton]
+      constructor
+      · rintro ((h | h) | h)
+        · exact Or.inl (Or.inl h)
+        · exact Or.inr h
+        · exact Or.inl (Or.inr h)
+      · rintro ((h | h) | h)
+        · exact Or.inl (Or.inl h)
+        · exact Or.inr h
+        · exact Or.inl (Or.inr h)
+    have hento : ∀ c', c' ≠ c → (setChan w c { (w.chans c) with readPending := (w.chans c).readPending ++
+        [Pending.mk f (w.fibers f).sched (if mode = 0 then .read else .choiceRead)] }).ent c' = w.ent c' := by
+      intro c' hc'; unfold World.ent; simp [setChan, hc']
+    refine ⟨?_, hcur, hlt, hnt, ?_, ?_, rfl, rfl, fun c' hc' => by simp [setChan, hc']⟩
+    · apply M_register f c (Pending.mk f (w.fibers f).sched (if mode = 0 then .read else .choiceRead)) hm hcur rfl rfl hlt
+      intro c' q
+      by_cases e : c' = c
+      · subst e; rw [hentc]; simp
+      · rw [hento c' e]; simp [e]
+    · intro c' hc'; unfold liveIn; rw [hento c' hc']; exact Iff.rfl
+    · exact ⟨_, (hentc _).mpr (Or.inr rfl), rfl, rfl⟩
+  · rw [he]
+    refine ⟨?_, fun w' h => by cases h⟩
+    intro w' r h
+    injection h with h1 _
+    have hspec := popWriter_spec w.fibers _ _ _ hq
+    have hrem := popWriter_removed w.fibers _ _ _ hq
+    let w1 := setChan (addHanded w c x) c { (w.chans c) with items := rest, writePending := wp' }
+    have hw1c : ∀ p, p ∈ w1.ent c ↔ p ∈ (w.chans c).readPending ∨ p ∈ wp' := by
+      intro p; rw [mem_ent]; simp [w1, addHanded, setChan]
+    have hw1o : ∀ c', c' ≠ c → w1.ent c' = w.ent c' := by
+      intro c' hc'; unfold World.ent; simp [w1, addHanded, setChan, hc']
+    have hsub : ∀ c' p, p ∈ w1.ent c' → p ∈ w.ent c' := by
+      intro c' p hp
+      by_cases e : c' = c
+      · subst e
+        rcases (hw1c p).mp hp with hp | hp
+        · exact (mem_ent w c' p).mpr (Or.inl hp)
+        · exact (mem_ent w c' p).mpr (Or.inr (hspec.1 p hp))
+      · rw [hw1o c' e] at hp; exact hp
+    have hliveIn1 : ∀ c', liveIn w.fibers w1.ent f c' ↔ liveIn w.fibers w.ent f c' := by
+      intro c'
+      by_cases e : c' = c
+      · subst e
+        constructor
+        · rintro ⟨q, hq', h1, h2⟩; exact ⟨q, hsub c' q hq', h1, h2⟩
+        · intro hh; exact absurd hh hnc
+      · unfold liveIn; rw [hw1o c' e]
+    cases o with
+    | none =>
+      simp only [] at h1
+      subst h1
+      refine ⟨?_, hcur, hlt, hnt, hliveIn1, rfl⟩
+      apply M_shrink hm hsub
+      intro c' p hp hnp
+      by_cases e : c' = c
+      · subst e
+        rcases (mem_ent w c' p).mp hp with hp | hp
+        · exact absurd ((hw1c p).mpr (Or.inl hp)) hnp
+        · have hnr : p ∉ wp' := fun hin => hnp ((hw1c p).mpr (Or.inr hin))
+          rcases hrem p hp hnr with hl | hl
+          · intro e; rw [(live_iff w.fibers p).mpr e] at hl; cases hl
+          · cases hl
+      · rw [hw1o c' e] at hnp; exact absurd hp hnp
+    | some p =>
+      simp only [] at h1
+      obtain ⟨hpin, hplive, _⟩ := hspec.2.2 p rfl
+      have hps : p.sched = (w.fibers p.fiber).sched := (live_iff w.fibers p).mp hplive
+      have hpent : p ∈ w.ent c := (mem_ent w c p).mpr (Or.inr hpin)
+      have hgf : p.fiber ≠ f := fun e => hnc ⟨p, hpent, e, by rw [← e]; exact hps⟩
+      have hcan : (w.fibers p.fiber).canceled = false :=
+        not_canceled_of_liveEntry hm p.fiber (Or.inl ⟨c, p, hpent, rfl, hps⟩)
+      have hw' : w' = scheduleGeneral w1 p.fiber (if p.mode = .choiceWrite then .give c else .chan c) .ok false := h1.symm
+      have hent' : w'.ent = w1.ent := by rw [hw']; unfold World.ent; rw [scheduleGeneral_chans]
+      obtain ⟨htm, _, hcur', _⟩ := scheduleGeneral_props w1 p.fiber (if p.mode = .choiceWrite then .give c else .chan c) .ok
+      have hM : M (scheduleGeneral w1 p.fiber (if p.mode = .choiceWrite then .give c else .chan c) .ok false).fibers
+          (scheduleGeneral w1 p.fiber (if p.mode = .choiceWrite then .give c else .chan c) .ok false).runq w.timers w1.ent
+          (scheduleGeneral w1 p.fiber (if p.mode = .choiceWrite then .give c else .chan c) .ok false).current := by
+        apply M_shrink_schedule (w := w1) (en := w.ent) p.fiber _ .ok hm hsub
+        · intro c' q hq' hnq
+          by_cases e : c' = c
+          · subst e
+            rcases (mem_ent w c' q).mp hq' with hq' | hq'
+            · exact absurd ((hw1c q).mpr (Or.inl hq')) hnq
+            · have hnr : q ∉ wp' := fun hin => hnq ((hw1c q).mpr (Or.inr hin))
+              rcases hrem q hq' hnr with hl | hl
+              · left; intro e; rw [(live_iff w.fibers q).mpr e] at hl; cases hl
+              · right; injection hl with hl; rw [hl]
+          · rw [hw1o c' e] at hnq; exact absurd hq' hnq
+        · exact hcan
+      obtain ⟨hLTf, hff⟩ := schedule_other w1 p.fiber (if p.mode = .choiceWrite then .give c else .chan c) .ok f hgf
+      refine ⟨?_, ?_, ?_, ?_, ?_, ?_⟩
+      · unfold WM; rw [hent', hw', htm]; exact hM
+      · rw [hw', hcur']; exact hcur
+      · rw [hw', hLTf]; exact hlt
+      · rw [hw', htm, liveTimer_congr _ f (by rw [hff])]; exact hnt
+      · intro c'
+        rw [hent', hw', liveIn_congr _ f c' (by rw [hff])]
+        exact hliveIn1 c'
+      · rw [hw']; exact hff
+
 end JanetModel.Ev
